@@ -423,6 +423,16 @@ func verifyAndFillConfig(cfg *ResponseConfig, nowMS int) error {
 	if nowMS < 0 {
 		return fmt.Errorf("nowMS must be >= 0")
 	}
+	const maxTimeS = 1 << 40 // Far beyond any meaningful time, but small enough for millisecond and timescale arithmetic
+	if cfg.StartTimeS < 0 || cfg.StartTimeS > maxTimeS {
+		return fmt.Errorf("start time %ds is out of range", cfg.StartTimeS)
+	}
+	if cfg.StopTimeS != nil && (*cfg.StopTimeS < 0 || *cfg.StopTimeS > maxTimeS) {
+		return fmt.Errorf("stop time %ds is out of range", *cfg.StopTimeS)
+	}
+	if ato := cfg.AvailabilityTimeOffsetS; ato < 0 || math.IsNaN(ato) || (ato > maxTimeS && !math.IsInf(ato, +1)) {
+		return fmt.Errorf("availabilityTimeOffset %v is out of range", ato)
+	}
 	if cfg.SegTimelineNrFlag && cfg.SegTimelineFlag {
 		return fmt.Errorf("SegmentTimelineTime and SegmentTimelineNr cannot be used at same time")
 	}
